@@ -169,7 +169,7 @@ func (d *SimDB) Empty(a common.Address) bool {
 
 func (d *SimDB) RevertToSnapshot(id int) {
 	d.StateDB.RevertToSnapshot(id)
-	d.L.Add(Ev{Ex: d.Ex, K: evDB, Name: "Revert", N: uint64(id)})
+	d.L.Add(Ev{Ex: d.Ex, K: evDB, Name: "Revert", N: uint64(id), N2: uint64(len(d.StateDB.Logs()))})
 }
 
 func (d *SimDB) Snapshot() int {
